@@ -276,6 +276,9 @@ def check(prog, run):
         run.report(r, "%s:ChainedVisitor.leave:not-reversed" % VIS, le.where(lloop[0]), "leave does not iterate the visitors in reverse order")
 
     # ---- V5 map_and_filter
+    from .. import typedrule
+    typedrule.run_rule(prog, run, "T1", "lang/visitor.py", "a traversal must not raise on any parsed tree", ["py_gql.lang.visitor"], 25)
+
     r = run.rule("V5", "map_and_filter keeps order, applies the function once per element and drops exactly the None results", 1)
     used = set()
     for name, m in visitor.methods.items():
